@@ -96,7 +96,7 @@ def make_case(idx):
     if horiz and R.random() < 0.7:
         # (the per-command normalisation is itself a motion and re-centres the view: most of this family runs without it and ends in a jump)
         raw = True
-        prog = prog[:R.randint(1, 8)] + [R.choice(['$', '$', '%d|' % R.choice(targets)]), '%d|' % R.choice(targets)]
+        prog = prog[:R.randint(1, 8)] + [R.choice(['$', '$', '%d|' % R.choice(targets)]), R.choice(['%d|' % R.choice(targets)] * 3 + ['\x05', '\x05\x05', 'H\x05\x05', '1G%dl\x05\x05' % R.choice([5, cols // 2, cols - 2]), 'L\x19\x19'])]
     if raw and not horiz and not rtl and R.random() < 0.5:
         # commands that move the cursor without redrawing anything
         prog.append(R.choice(['yb', 'y0', 'yB', 'y^', 'yFo', 'yTa', 'y2h', 'yk', 'y{', 'ma', '\x07']))
